@@ -346,6 +346,25 @@ fn spawn_async_ao_list_in_task'''),
         ('digit-equal-radix-accepted', PA, 'if digit_val >= radix {', 'if digit_val > radix {'),
         ('base-65-accepted', PA, 'if !(2..=64).contains(&radix) {', 'if !(2..=65).contains(&radix) {'),
     ],
+    'U10': [
+        ('dollar-not-regex-special', 'brush-core/src/regex.rs', "'\\\\' | '^' | '$' | '.' | '|'", "'\\\\' | '^' | '.' | '|'"),
+        ('translator-drops-escape-of-plus', 'brush-parser/src/pattern.rs', "'*' | '?' | '.' | '+' | '^'", "'*' | '?' | '.' | '^'"),
+        ('literal-piece-not-escaped', 'brush-core/src/patterns.rs', '''                        if crate::regex::regex_char_is_special(c) {
+                            current_pattern.push('\\\\');
+                        }
+''', ''),
+        ('quoted-piece-becomes-pattern', 'brush-core/src/expansion.rs', '''impl From<ExpansionPiece> for patterns::PatternPiece {
+    fn from(piece: ExpansionPiece) -> Self {
+        match piece {
+            ExpansionPiece::Unsplittable(s) => Self::Literal(s),''', '''impl From<ExpansionPiece> for patterns::PatternPiece {
+    fn from(piece: ExpansionPiece) -> Self {
+        match piece {
+            ExpansionPiece::Unsplittable(s) => Self::Pattern(s),'''),
+        ('suffix-anchor-dropped', 'brush-core/src/patterns.rs', '''        if strict_suffix_match {
+            regex_str.push('$');
+        }
+''', ''),
+    ],
     'U15': [
         ('close-removes-entry', 'brush-core/src/openfiles.rs', 'self.files.insert(fd, None).and_then(|f| f)', 'self.files.remove(&fd).and_then(|f| f)'),
         ('add-starts-at-stderr', 'brush-core/src/openfiles.rs', 'const FIRST_NON_STDIO_FD: ShellFd = 3;', 'const FIRST_NON_STDIO_FD: ShellFd = 2;'),
